@@ -704,6 +704,13 @@ mod huffman {
                         }
                     }
 
+                    if self.pending_bits == 0 && std::ptr::eq(map, self.decode) {
+                        // No bits remain and we are at a symbol boundary: the sequence is complete.
+                        // This must not consult the map, whose entry for zero may be a longer code
+                        // (`Further`), or void if the map was built from empty statistics.
+                        return None;
+                    }
+
                     if self.pending_bits < 8 {
                         // We have run out of bytes. We may yet be able to decode the remaining bits.
                         // Promote the valid bits and consult the map; if it only consumes valid bits,
